@@ -193,6 +193,9 @@ def build_app(kind):
             doc.text = "edited by a wsdl_document_built listener"
             wsdl.root_elt.insert(0, doc)
         wsgi.doc.wsdl11.event_manager.add_listener("wsdl_document_built", _edit)
+        # ... and the documented stylesheet reference (a processing instruction in front of
+        # the root element)
+        wsgi.doc.wsdl11.xsl_href = "/static/wsdl.xsl"
     return wsgi
 
 
